@@ -611,12 +611,13 @@ func c16(g *Gen) {
 		if dcCrossed {
 			npk = 2 + g.R.Intn(2)
 		}
+		dcEmbedded = i%4 == 2
 		dcSuffix = i%8 == 5
 		if dcSuffix && npk < 2 {
 			npk = 2
 		}
 		prog, cls := g.genDeepcopyProgram(prefix, npk, i%2 == 1)
-		dcSuffix = false
+		dcSuffix, dcEmbedded = false, false
 		dcForce = ""
 		if dcCrossed {
 			cls = append(cls, "several-input-packages-paths-and-names-sort-differently")
